@@ -1,5 +1,6 @@
 import UvModel.DriverUtil
 import UvModel.FsPoll
+import UvModel.FsEvent
 /-! line-protocol driver modes for C17; the other side is harness/c17_sim.c.
 
   mode `c17poll` (fs_poll).  Input = the harness's own input-bearing lines:
@@ -11,7 +12,9 @@ import UvModel.FsPoll
   Output: every line the harness prints that is not a '#' comment.
 -/
 namespace Drivers.C17
-open UvModel.DriverUtil UvModel.FsPoll
+open UvModel.DriverUtil
+section PollPart
+open UvModel.FsPoll
 
 def parseOp : List String → Option Op
   | ["start", h, cb, p, iv] => do pure (.start (← h.toNat?) (← cb.toNat?) (← p.toNat?) (← iv.toNat?))
@@ -131,7 +134,86 @@ def stepPoll (d : DS) (ws : List String) : DS × List String :=
     | none => (d, [line, "bad-op"])
   | _ => (d, [" ".intercalate ws, "bad-op"])
 
+end PollPart
+
+/-! mode `c17event` (fs_event, scripted inotify records):
+    script <k> <op>;...      (start:h:cb:wd:alias stop:h close:h)
+    op start <h> <cb> <wd> <alias> | op stop <h> | op close <h>
+    op dispatch <wd>:<mask>:<name|-> ... [/ ...]      ('/' = next read(2) buffer)
+    op run | op end -/
+namespace Ev
+open UvModel.FsEvent
+
+def parseOp : List String → Option Op
+  | ["start", h, cb, wd, a] => do pure (.start (← h.toNat?) (← cb.toNat?) (← wd.toNat?) (← a.toNat?))
+  | ["stop", h] => do pure (.stop (← h.toNat?))
+  | ["close", h] => do pure (.close (← h.toNat?))
+  | _ => none
+
+def fmtOp : Op → String
+  | .start h cb wd a => s!"op start {h} {cb} {wd} {a}"
+  | .stop h => s!"op stop {h}"
+  | .close h => s!"op close {h}"
+
+def fmtObs : Obs → String
+  | .api o => fmtOp o
+  | .ret rc a => s!"ret {rc} a={if a then 1 else 0}"
+  | .misuse => "misuse"
+  | .addwatch r => s!"addwatch {r}"
+  | .rmwatch wd => s!"rmwatch {wd}"
+  | .cb h f name ev => s!"cb h{h} f{f} name={name} ev={ev} st=0"
+
+structure DS where
+  s : S := {}
+  script : List (Nat × List Op) := []
+
+def scriptOf (d : DS) : Script := fun k => ((d.script.find? (·.1 = k)).map (·.2)).getD []
+
+def newLines (old new : S) : List String :=
+  ((new.trace.take (new.trace.length - old.trace.length)).reverse).map fmtObs
+
+def parseRec (w : String) : Option Rec :=
+  match w.splitOn ":" with
+  | [wd, mask, name] => do
+    pure { wd := (← wd.toNat?), mask := (← mask.toNat?), name := if name = "-" then none else some name }
+  | _ => none
+
+def stepEv (d : DS) (ws : List String) : DS × List String :=
+  let line := " ".intercalate ws
+  match ws with
+  | [] => (d, [])
+  | ["reset"] => ({}, ["=== reset"])
+  | "script" :: k :: rest =>
+    let ops := ((" ".intercalate rest).splitOn ";").map (fun o => parseOp ((o.splitOn ":").filter (· ≠ "")))
+    match k.toNat?, ops.all Option.isSome with
+    | some k, true => ({ d with script := (k, ops.filterMap id) :: d.script }, [line])
+    | _, _ => (d, [line, "bad-op"])
+  | ["op", "run"] => (d, [line])
+  | ["op", "end"] => (d, [line, "loopclose 0 open=0"])
+  | "op" :: "dispatch" :: recs =>
+    let rs := (recs.filter (· ≠ "/")).map parseRec
+    if rs.all Option.isSome then
+      if !d.s.inited then (d, [line, "noinotify"])
+      else
+        let s' := step (scriptOf d) d.s (.dispatch (rs.filterMap id))
+        ({ d with s := s' }, [line] ++ newLines d.s s' ++ (if s'.err && !d.s.err then ["model-error-state"] else []) ++ ["dispatched"])
+    else (d, [line, "bad-op"])
+  | "op" :: rest =>
+    match parseOp rest with
+    | some o =>
+      let h := match o with | .start h _ _ _ => h | .stop h => h | .close h => h
+      let cbOk := match o with | .start _ cb _ _ => cb < 4 | _ => true
+      if h ≥ 4 || !cbOk then (d, [line, "bad-op"])
+      else
+        let s' := step (scriptOf d) d.s (.op o)
+        ({ d with s := s' }, newLines d.s s')
+    | none => (d, [line, "bad-op"])
+  | _ => (d, [line, "bad-op"])
+
+end Ev
+
 /-- (mode name, action).  `uvdriver <mode>` runs the action (normally `runLines init step`). -/
-def modes : List (String × IO Unit) := [("c17poll", runLines ({} : DS) stepPoll)]
+def modes : List (String × IO Unit) :=
+  [("c17poll", runLines ({} : DS) stepPoll), ("c17event", runLines ({} : Ev.DS) Ev.stepEv)]
 
 end Drivers.C17
